@@ -76,23 +76,23 @@ fn evaluate_operator(
     }
     let result = match *op {
         ir::IntrinsicOp::PrefixIncrement => match arg_values[0] {
-            ir::Constant::Int32(input) => ir::Constant::Int32(input + 1),
-            ir::Constant::UInt32(input) => ir::Constant::UInt32(input + 1),
+            ir::Constant::Int32(input) => ir::Constant::Int32(input.wrapping_add(1)),
+            ir::Constant::UInt32(input) => ir::Constant::UInt32(input.wrapping_add(1)),
             _ => return Err(()),
         },
         ir::IntrinsicOp::PrefixDecrement => match arg_values[0] {
-            ir::Constant::Int32(input) => ir::Constant::Int32(input - 1),
-            ir::Constant::UInt32(input) => ir::Constant::UInt32(input - 1),
+            ir::Constant::Int32(input) => ir::Constant::Int32(input.wrapping_sub(1)),
+            ir::Constant::UInt32(input) => ir::Constant::UInt32(input.wrapping_sub(1)),
             _ => return Err(()),
         },
         ir::IntrinsicOp::PostfixIncrement => match arg_values[0] {
-            ir::Constant::Int32(input) => ir::Constant::Int32(input + 1),
-            ir::Constant::UInt32(input) => ir::Constant::UInt32(input + 1),
+            ir::Constant::Int32(input) => ir::Constant::Int32(input.wrapping_add(1)),
+            ir::Constant::UInt32(input) => ir::Constant::UInt32(input.wrapping_add(1)),
             _ => return Err(()),
         },
         ir::IntrinsicOp::PostfixDecrement => match arg_values[0] {
-            ir::Constant::Int32(input) => ir::Constant::Int32(input - 1),
-            ir::Constant::UInt32(input) => ir::Constant::UInt32(input - 1),
+            ir::Constant::Int32(input) => ir::Constant::Int32(input.wrapping_sub(1)),
+            ir::Constant::UInt32(input) => ir::Constant::UInt32(input.wrapping_sub(1)),
             _ => return Err(()),
         },
         ir::IntrinsicOp::Plus => match arg_values[0] {
@@ -102,8 +102,11 @@ fn evaluate_operator(
             ref value => value.clone(),
         },
         ir::IntrinsicOp::Minus => match arg_values[0] {
-            ir::Constant::Int32(input) => ir::Constant::Int32(-input),
-            ir::Constant::IntLiteral(input) => ir::Constant::IntLiteral(-input),
+            ir::Constant::Int32(input) => ir::Constant::Int32(input.wrapping_neg()),
+            ir::Constant::IntLiteral(input) => match input.checked_neg() {
+                Some(v) => ir::Constant::IntLiteral(v),
+                None => return Err(()),
+            },
             ir::Constant::Float16(input) => ir::Constant::Float16(-input),
             ir::Constant::FloatLiteral(input) => ir::Constant::FloatLiteral(-input),
             ir::Constant::Float32(input) => ir::Constant::Float32(-input),
@@ -124,31 +127,46 @@ fn evaluate_operator(
         },
         ir::IntrinsicOp::Add => match (&arg_values[0], &arg_values[1]) {
             (ir::Constant::IntLiteral(lhs), ir::Constant::IntLiteral(rhs)) => {
-                ir::Constant::IntLiteral(lhs + rhs)
+                ir::Constant::IntLiteral(match lhs.checked_add(*rhs) {
+                    Some(v) => v,
+                    None => return Err(()),
+                })
             }
-            (ir::Constant::Int32(lhs), ir::Constant::Int32(rhs)) => ir::Constant::Int32(lhs + rhs),
+            (ir::Constant::Int32(lhs), ir::Constant::Int32(rhs)) => {
+                ir::Constant::Int32(lhs.wrapping_add(*rhs))
+            }
             (ir::Constant::UInt32(lhs), ir::Constant::UInt32(rhs)) => {
-                ir::Constant::UInt32(lhs + rhs)
+                ir::Constant::UInt32(lhs.wrapping_add(*rhs))
             }
             _ => return Err(()),
         },
         ir::IntrinsicOp::Subtract => match (&arg_values[0], &arg_values[1]) {
             (ir::Constant::IntLiteral(lhs), ir::Constant::IntLiteral(rhs)) => {
-                ir::Constant::IntLiteral(lhs - rhs)
+                ir::Constant::IntLiteral(match lhs.checked_sub(*rhs) {
+                    Some(v) => v,
+                    None => return Err(()),
+                })
             }
-            (ir::Constant::Int32(lhs), ir::Constant::Int32(rhs)) => ir::Constant::Int32(lhs - rhs),
+            (ir::Constant::Int32(lhs), ir::Constant::Int32(rhs)) => {
+                ir::Constant::Int32(lhs.wrapping_sub(*rhs))
+            }
             (ir::Constant::UInt32(lhs), ir::Constant::UInt32(rhs)) => {
-                ir::Constant::UInt32(lhs - rhs)
+                ir::Constant::UInt32(lhs.wrapping_sub(*rhs))
             }
             _ => return Err(()),
         },
         ir::IntrinsicOp::Multiply => match (&arg_values[0], &arg_values[1]) {
             (ir::Constant::IntLiteral(lhs), ir::Constant::IntLiteral(rhs)) => {
-                ir::Constant::IntLiteral(lhs * rhs)
+                ir::Constant::IntLiteral(match lhs.checked_mul(*rhs) {
+                    Some(v) => v,
+                    None => return Err(()),
+                })
             }
-            (ir::Constant::Int32(lhs), ir::Constant::Int32(rhs)) => ir::Constant::Int32(lhs * rhs),
+            (ir::Constant::Int32(lhs), ir::Constant::Int32(rhs)) => {
+                ir::Constant::Int32(lhs.wrapping_mul(*rhs))
+            }
             (ir::Constant::UInt32(lhs), ir::Constant::UInt32(rhs)) => {
-                ir::Constant::UInt32(lhs * rhs)
+                ir::Constant::UInt32(lhs.wrapping_mul(*rhs))
             }
             _ => return Err(()),
         },
@@ -175,16 +193,16 @@ fn evaluate_operator(
         },
         ir::IntrinsicOp::Modulus => match (&arg_values[0], &arg_values[1]) {
             (ir::Constant::IntLiteral(lhs), ir::Constant::IntLiteral(rhs)) => {
-                if *rhs == 0 {
-                    return Err(());
-                }
-                ir::Constant::IntLiteral(lhs % rhs)
+                ir::Constant::IntLiteral(match lhs.checked_rem(*rhs) {
+                    Some(v) => v,
+                    None => return Err(()),
+                })
             }
             (ir::Constant::Int32(lhs), ir::Constant::Int32(rhs)) => {
                 if *rhs == 0 {
                     return Err(());
                 }
-                ir::Constant::Int32(lhs % rhs)
+                ir::Constant::Int32(lhs.wrapping_rem(*rhs))
             }
             (ir::Constant::UInt32(lhs), ir::Constant::UInt32(rhs)) => {
                 if *rhs == 0 {
@@ -196,21 +214,41 @@ fn evaluate_operator(
         },
         ir::IntrinsicOp::LeftShift => match (&arg_values[0], &arg_values[1]) {
             (ir::Constant::IntLiteral(lhs), ir::Constant::IntLiteral(rhs)) => {
-                ir::Constant::IntLiteral(lhs << rhs)
+                // The shifted value must be exact
+                let value = match u32::try_from(*rhs)
+                    .ok()
+                    .and_then(|rhs| lhs.checked_shl(rhs))
+                {
+                    Some(v) if v >> *rhs == *lhs => v,
+                    _ => return Err(()),
+                };
+                ir::Constant::IntLiteral(value)
             }
-            (ir::Constant::Int32(lhs), ir::Constant::Int32(rhs)) => ir::Constant::Int32(lhs << rhs),
+            (ir::Constant::Int32(lhs), ir::Constant::Int32(rhs)) => {
+                ir::Constant::Int32(lhs.wrapping_shl(*rhs as u32))
+            }
             (ir::Constant::UInt32(lhs), ir::Constant::UInt32(rhs)) => {
-                ir::Constant::UInt32(lhs << rhs)
+                ir::Constant::UInt32(lhs.wrapping_shl(*rhs))
             }
             _ => return Err(()),
         },
         ir::IntrinsicOp::RightShift => match (&arg_values[0], &arg_values[1]) {
             (ir::Constant::IntLiteral(lhs), ir::Constant::IntLiteral(rhs)) => {
-                ir::Constant::IntLiteral(lhs >> rhs)
+                ir::Constant::IntLiteral(
+                    match u32::try_from(*rhs)
+                        .ok()
+                        .and_then(|rhs| lhs.checked_shr(rhs))
+                    {
+                        Some(v) => v,
+                        None => return Err(()),
+                    },
+                )
             }
-            (ir::Constant::Int32(lhs), ir::Constant::Int32(rhs)) => ir::Constant::Int32(lhs >> rhs),
+            (ir::Constant::Int32(lhs), ir::Constant::Int32(rhs)) => {
+                ir::Constant::Int32(lhs.wrapping_shr(*rhs as u32))
+            }
             (ir::Constant::UInt32(lhs), ir::Constant::UInt32(rhs)) => {
-                ir::Constant::UInt32(lhs >> rhs)
+                ir::Constant::UInt32(lhs.wrapping_shr(*rhs))
             }
             _ => return Err(()),
         },
